@@ -4,6 +4,7 @@ import (
 	"fmt"
 	"strconv"
 	"strings"
+	"sync"
 	"time"
 
 	"github.com/influxdata/influxql"
@@ -127,6 +128,80 @@ type tcCtx struct {
 	extremes bool
 }
 
+var tcDottedOnce sync.Once
+var tcDotted bool
+
+// tcDottedTime: does the library read a column spelled with U+0130 (whose
+// lower case is i) as the time column? The property does not say; the spelling
+// is used only when ConditionExpr itself takes it for time, and then every
+// other function has to agree with it.
+func tcDottedTime() bool {
+	tcDottedOnce.Do(func() {
+		mon.Try(func() {
+			e, err := influxql.ParseExpr("\"t\u0130me\" >= 5")
+			if err != nil {
+				return
+			}
+			rest, tr, err := influxql.ConditionExpr(e, nil)
+			tcDotted = err == nil && rest == nil && !tr.Min.IsZero() && tr.Min.UnixNano() == 5
+		})
+	})
+	return tcDotted
+}
+
+var tcTransCache sync.Map
+
+// tcZone loads a zone by name (New York when the name is not installed).
+func tcZone(name string) *time.Location {
+	if l, err := time.LoadLocation(name); err == nil {
+		return l
+	}
+	l, _ := time.LoadLocation("America/New_York")
+	return l
+}
+
+// tcNearTransitions lists instants from three hours before to fourteen hours
+// after each change of the zone's UTC offset in 2000 and 2024 whose wall-clock
+// reading in the zone is unambiguous (it denotes that instant and no other).
+func tcNearTransitions(zone *time.Location) []int64 {
+	if v, ok := tcTransCache.Load(zone.String()); ok {
+		return v.([]int64)
+	}
+	const layout = "2006-01-02 15:04:05"
+	var out []int64
+	for _, year := range []int{2000, 2024} {
+		t := time.Date(year, 1, 1, 0, 0, 0, 0, time.UTC)
+		_, prev := t.In(zone).Zone()
+		for h := 1; h < 366*24; h++ {
+			t2 := t.Add(time.Duration(h) * time.Hour)
+			_, off := t2.In(zone).Zone()
+			if off == prev {
+				continue
+			}
+			tr := t2
+			for m := 1; m <= 60; m++ {
+				if _, o := t2.Add(-time.Duration(m) * time.Minute).In(zone).Zone(); o == prev {
+					tr = t2.Add(-time.Duration(m-1) * time.Minute)
+					break
+				}
+			}
+			shift := time.Duration(off-prev) * time.Second
+			for _, dm := range []int{-181, -121, -61, -1, 61, 90, 121, 181, 239, 301, 421, 601, 721, 779, 841} {
+				cand := tr.Add(time.Duration(dm) * time.Minute)
+				txt := cand.In(zone).Format(layout)
+				back, err := time.ParseInLocation(layout, txt, zone)
+				if err != nil || !back.Equal(cand) || cand.Add(shift).In(zone).Format(layout) == txt || cand.Add(-shift).In(zone).Format(layout) == txt {
+					continue
+				}
+				out = append(out, cand.UnixNano())
+			}
+			prev = off
+		}
+	}
+	tcTransCache.Store(zone.String(), out)
+	return out
+}
+
 var flipOp = map[string]string{"=": "=", "<": ">", "<=": ">=", ">": "<", ">=": "<="}
 
 // timeLeaf builds one time comparison.
@@ -139,6 +214,12 @@ func (c *tcCtx) timeLeaf() *tcNode {
 	inst := tcInstants[rg.Intn(len(tcInstants))]
 	if rg.P(0.3) {
 		inst = 946684800000000000 + int64(rg.Intn(1000))*3600000000000 + int64(rg.Intn(3)-1)
+	}
+	if c.loc != nil && rg.P(0.25) {
+		// wall-clock readings next to a change of the zone's offset
+		if tr := tcNearTransitions(zone); len(tr) > 0 {
+			inst = tr[rg.Intn(len(tr))] + int64(rg.Intn(3)-1)*1000
+		}
 	}
 	var lit string
 	form := rg.Intn(8)
@@ -203,6 +284,9 @@ func (c *tcCtx) timeLeaf() *tcNode {
 	}
 	op := []string{"=", "<", "<=", ">", ">="}[rg.Intn(5)]
 	name := rg.Pick("time", "time", "time", "TIME", "Time", "tIME", "time", "time", "time", "TIME", "Time", "tIME", `"time"`, `"Time"`, "time::integer", `"time"::field`, "TIME::tag", "time::float", "Time::string")
+	if tcDottedTime() && rg.P(0.1) {
+		name = rg.Pick("\"t\u0130me\"", "\"T\u0130ME\"")
+	}
 	n := &tcNode{op: "time", instant: inst}
 	if rg.P(0.6) {
 		n.text = name + " " + op + " " + lit
